@@ -215,7 +215,7 @@ SpecRef(data, i, p) ==
   CASE p = "tx" -> NameRef(data, i) [] p = "cat" -> CatRef(data) [] p = "x" -> XRef(data, i) [] p = "sz" -> SizeRef(data, i)
     [] OTHER -> ValRef(data, i)
 
-Clauses == <<"RefSizeIsPtCount", "PointEqualsCell", "CellHoldsData">>
+SheetClauses == <<"RefSizeIsPtCount", "PointEqualsCell", "CellHoldsData">>
 \* witnesses of the failing clauses of one observed chart: records [clause, ser, part, ...]
 Witnesses(data, obs) ==
   LET n == IF Len(obs.sers) < NSer(data) THEN Len(obs.sers) ELSE NSer(data) IN
